@@ -1,62 +1,44 @@
 //! E1 `clustersim`: multi-node cluster runs (DESIGN.md §7).
 
+use std::cell::RefCell;
 use std::collections::{BTreeMap, HashMap};
 use std::rc::Rc;
-use std::sync::atomic::Ordering;
 use std::sync::{Arc, Mutex};
 use std::time::Duration;
 
-use bytes::Bytes;
-use d_engine_core::client::{ClientResponse, ClientWriteRequest, ErrorCode, WriteOperation};
-use d_engine_core::{ClientCmd, MaybeCloneOneshot, RaftLog, RaftNodeConfig, RaftOneshot};
-use d_engine_proto::common::{NodeRole, NodeStatus};
-use d_engine_proto::server::cluster::NodeMeta;
-use serde_json::json;
+use d_engine_core::{Membership, RaftLog};
+use futures::FutureExt;
+use serde_json::{Value, json};
 
+use crate::clients::{History, HistoryRef, run_client};
 use crate::net::{Net, NetConfig};
 use crate::node::SimNode;
-use crate::oracle::{Oracle, OracleRef};
-use crate::rng::Rng;
+use crate::oracle::{Oracle, OracleRef, ROLE_LEADER, ROLE_LEARNER};
+use crate::plan::{Fault, NodeSel, Plan, gen_plan};
+use crate::world::{CommitLedger, LiveHandles, Registry, World, WorldRef, install_hook, node_config, payload_hash};
 
 pub fn tmp_root() -> std::path::PathBuf {
     let base = std::env::var("VERIF_TMP").unwrap_or_else(|_| "/dev/shm".to_string());
     std::path::PathBuf::from(base).join(format!("dsim-{}", std::process::id()))
 }
 
-pub fn base_config(node_id: u32, members: &[(u32, bool)], root: &std::path::Path) -> RaftNodeConfig {
-    let mut cfg = RaftNodeConfig::default();
-    cfg.cluster.node_id = node_id;
-    cfg.cluster.initial_cluster = members
-        .iter()
-        .map(|(id, learner)| NodeMeta {
-            id: *id,
-            address: format!("127.0.0.1:{}", 9000 + id),
-            role: if *learner { NodeRole::Learner as i32 } else { NodeRole::Follower as i32 },
-            status: if *learner { NodeStatus::Promotable as i32 } else { NodeStatus::Active as i32 },
-        })
-        .collect();
-    let dir = root.join(format!("n{node_id}"));
-    cfg.cluster.db_root_dir = dir.join("db");
-    cfg.cluster.log_dir = dir.join("logs");
-    cfg.raft.snapshot.snapshots_dir = dir.join("snapshots");
-    cfg
-}
-
 pub fn run_cli(seed: u64, kv: &HashMap<String, String>) -> i32 {
-    crate::seams::enter_sim_thread(seed);
-    crate::oracle::reset_event_seq();
-    let root = tmp_root();
-    let _ = std::fs::remove_dir_all(&root);
-    std::fs::create_dir_all(&root).unwrap();
-    // d-engine prints role changes with println!; keep stdout for the result only.
-    let rt = tokio::runtime::Builder::new_current_thread().enable_time().start_paused(true).build().unwrap();
-    let trace = kv.contains_key("trace");
-    let result = rt.block_on(async move {
-        d_engine_core::init_clock();
-        run_basic(seed, &root, trace).await
-    });
-    drop(rt);
-    let _ = std::fs::remove_dir_all(tmp_root());
+    let scenario = kv.get("scenario").cloned().unwrap_or_else(|| "general".to_string());
+    let masked: Vec<String> = kv.get("mask").map(|s| s.split(',').filter(|x| !x.is_empty()).map(|x| x.to_string()).collect()).unwrap_or_default();
+    let plan: Plan = match kv.get("plan") {
+        Some(p) => {
+            let txt = std::fs::read_to_string(p).expect("read plan");
+            let v: Value = serde_json::from_str(&txt).expect("plan json");
+            let pv = v.get("plan").cloned().unwrap_or(v);
+            serde_json::from_value(pv).expect("plan schema")
+        }
+        None => gen_plan(seed, &scenario, &masked),
+    };
+    if kv.contains_key("print-plan") {
+        println!("{}", serde_json::to_string_pretty(&plan).unwrap());
+        return 0;
+    }
+    let result = run_plan(plan, kv.contains_key("trace"));
     let out = serde_json::to_string(&result).unwrap();
     if let Some(p) = kv.get("out") {
         std::fs::write(p, &out).unwrap();
@@ -66,66 +48,490 @@ pub fn run_cli(seed: u64, kv: &HashMap<String, String>) -> i32 {
     0
 }
 
-async fn run_basic(seed: u64, root: &std::path::Path, trace: bool) -> serde_json::Value {
-    let oracle: OracleRef = Oracle::new(trace);
-    let net = Net::new(seed, NetConfig::default(), oracle.clone());
-    // state hook
-    {
-        let o = oracle.clone();
-        d_engine_core::verif::set_hook(Rc::new(move |ev| {
-            if let d_engine_core::verif::Event::State(v) = ev {
-                o.lock().unwrap().on_state(v.node_id, v.role, v.term, v.commit_index, v.voted_for, v.leader);
+/// Run one plan on a fresh thread: the thread-local hash-map keys (std `RandomState`) and
+/// every other lazily seeded thread-local RNG are then drawn from the run's seeded stream.
+pub fn run_plan(plan: Plan, trace: bool) -> Value {
+    std::thread::Builder::new()
+        .name("sim".into())
+        .stack_size(256 << 20)
+        .spawn(move || run_plan_on_this_thread(plan, trace))
+        .expect("spawn sim thread")
+        .join()
+        .unwrap_or_else(|_| json!({"harness_error": "simulator thread panicked"}))
+}
+
+fn run_plan_on_this_thread(plan: Plan, trace: bool) -> Value {
+    crate::seams::enter_sim_thread(plan.seed);
+    crate::seams::reset_time();
+    crate::oracle::reset_event_seq();
+    tokio::verif::reset();
+    let root = tmp_root();
+    let _ = std::fs::remove_dir_all(&root);
+    std::fs::create_dir_all(&root).unwrap();
+    // private TMPDIR: d-engine's snapshot install uses tempfile::tempdir()
+    unsafe { std::env::set_var("TMPDIR", root.join("tmp")) };
+    std::fs::create_dir_all(root.join("tmp")).unwrap();
+    let wall = std::time::Instant::now;
+    let _ = wall;
+    let rt = tokio::runtime::Builder::new_current_thread().enable_time().start_paused(true).build().unwrap();
+    let local = tokio::task::LocalSet::new();
+    let root2 = root.clone();
+    let result = local.block_on(&rt, async move {
+        d_engine_core::init_clock();
+        run(plan, &root2, trace).await
+    });
+    d_engine_core::verif::clear_hook();
+    drop(local);
+    drop(rt);
+    let _ = std::fs::remove_dir_all(&root);
+    result
+}
+
+fn resolve(world: &World, sel: &NodeSel) -> Option<u32> {
+    let up = world.up_nodes();
+    let o = world.oracle.lock().unwrap();
+    let leader = o
+        .views
+        .iter()
+        .filter(|(id, v)| v.role == ROLE_LEADER && v.up && up.contains(id))
+        .max_by_key(|(_, v)| v.term)
+        .map(|(id, _)| *id);
+    match sel {
+        NodeSel::Id(i) => Some(*i),
+        NodeSel::Leader => leader.or_else(|| up.first().copied()),
+        NodeSel::Follower(k) => {
+            let f: Vec<u32> = up
+                .iter()
+                .filter(|i| Some(**i) != leader && o.views.get(i).map(|v| v.role) != Some(ROLE_LEARNER))
+                .copied()
+                .collect();
+            if f.is_empty() { None } else { Some(f[*k as usize % f.len()]) }
+        }
+        NodeSel::Any(k) => {
+            if up.is_empty() { None } else { Some(up[*k as usize % up.len()]) }
+        }
+    }
+}
+
+async fn start_node(world: &WorldRef, id: u32) {
+    let taken = world.borrow_mut().nodes.get_mut(&id).and_then(|n| n.take());
+    let Some(mut node) = taken else { return };
+    if !node.is_up() {
+        node.start().await;
+        if let Some(cur) = &node.cur {
+            let w = world.borrow();
+            w.registry
+                .lock()
+                .unwrap()
+                .live
+                .insert(id, LiveHandles { log: cur.raft_log.clone(), membership: cur.membership.clone() });
+            // C31: drain leader notifications of this incarnation
+            let mut rx = cur.node.leader_change_notifier();
+            let oracle = w.oracle.clone();
+            tokio::task::spawn_local(async move {
+                loop {
+                    if rx.changed().await.is_err() {
+                        break;
+                    }
+                    let v = rx.borrow_and_update().clone();
+                    oracle.lock().unwrap().on_leader_note(id, v.map(|l| (l.leader_id, l.term)));
+                }
+            });
+        }
+    }
+    world.borrow_mut().nodes.insert(id, Some(node));
+}
+
+async fn stop_node(world: &WorldRef, id: u32, how: u8, choice: u64) {
+    let taken = world.borrow_mut().nodes.get_mut(&id).and_then(|n| n.take());
+    let Some(mut node) = taken else { return };
+    world.borrow().registry.lock().unwrap().live.remove(&id);
+    match how {
+        0 => node.crash(false, choice),
+        1 => node.crash(true, choice),
+        _ => node.stop_gracefully().await,
+    }
+    world.borrow_mut().nodes.insert(id, Some(node));
+}
+
+async fn exec_fault(world: WorldRef, f: Fault) {
+    tokio::time::sleep(Duration::from_millis(f.at())).await;
+    let seed = world.borrow().plan.seed;
+    let choice = crate::rng::keyed(seed, &[f.at(), 0xFA]);
+    let all: Vec<u32> = world.borrow().nodes.keys().copied().collect();
+    world.borrow_mut().faults_active += 1;
+    match f.clone() {
+        Fault::Partition { dur, side, .. } => {
+            let ids: Vec<u32> = {
+                let w = world.borrow();
+                let mut v: Vec<u32> = side.iter().filter_map(|s| resolve(&w, s)).collect();
+                v.sort();
+                v.dedup();
+                v
+            };
+            let rest: Vec<u32> = all.iter().filter(|i| !ids.contains(i)).copied().collect();
+            if !ids.is_empty() && !rest.is_empty() {
+                let net = world.borrow().net.clone();
+                net.partition(&ids, &rest);
+                world.borrow_mut().fire(f.kind_name());
+                world.borrow().oracle.lock().unwrap().trace("partition", ids[0] as u64, ids.len() as u64, dur);
+                tokio::time::sleep(Duration::from_millis(dur)).await;
+                let mut g = net.inner.lock().unwrap();
+                for a in &ids {
+                    for b in &rest {
+                        g.blocked.remove(&(*a, *b));
+                        g.blocked.remove(&(*b, *a));
+                    }
+                }
             }
-        }));
+        }
+        Fault::OneWay { dur, node, outbound, .. } => {
+            let id = resolve(&world.borrow(), &node);
+            if let Some(id) = id {
+                let net = world.borrow().net.clone();
+                let pairs: Vec<(u32, u32)> =
+                    all.iter().filter(|o| **o != id).map(|o| if outbound { (id, *o) } else { (*o, id) }).collect();
+                for p in &pairs {
+                    net.block(p.0, p.1);
+                }
+                world.borrow_mut().fire(f.kind_name());
+                tokio::time::sleep(Duration::from_millis(dur)).await;
+                let mut g = net.inner.lock().unwrap();
+                for p in &pairs {
+                    g.blocked.remove(p);
+                }
+            }
+        }
+        Fault::Crash { node, power_loss, down_ms, .. } => {
+            let id = resolve(&world.borrow(), &node);
+            if let Some(id) = id {
+                // never take down a majority of the voters at once (property quantifier of C05/C10)
+                let ok = {
+                    let w = world.borrow();
+                    let voters = w.plan.voters.len();
+                    let down = w.plan.voters.iter().filter(|v| !w.up_nodes().contains(v)).count();
+                    !w.plan.voters.contains(&id) || (down + 1) * 2 < voters || voters == 1
+                };
+                if ok && world.borrow().up_nodes().contains(&id) {
+                    stop_node(&world, id, if power_loss { 1 } else { 0 }, choice).await;
+                    world.borrow_mut().fire(f.kind_name());
+                    tokio::time::sleep(Duration::from_millis(down_ms)).await;
+                    start_node(&world, id).await;
+                }
+            }
+        }
+        Fault::Graceful { node, down_ms, .. } => {
+            let id = resolve(&world.borrow(), &node);
+            if let Some(id) = id {
+                if world.borrow().up_nodes().contains(&id) {
+                    stop_node(&world, id, 2, choice).await;
+                    world.borrow_mut().fire(f.kind_name());
+                    tokio::time::sleep(Duration::from_millis(down_ms)).await;
+                    start_node(&world, id).await;
+                }
+            }
+        }
+        Fault::FullRestart { down_ms, .. } => {
+            let up = world.borrow().up_nodes();
+            for id in &up {
+                stop_node(&world, *id, 2, choice).await;
+            }
+            world.borrow_mut().fire(f.kind_name());
+            tokio::time::sleep(Duration::from_millis(down_ms)).await;
+            for id in &up {
+                start_node(&world, *id).await;
+            }
+        }
+        Fault::SlowLink { dur, src, dst, extra_ms, .. } => {
+            let (a, b) = {
+                let w = world.borrow();
+                (resolve(&w, &src), resolve(&w, &dst))
+            };
+            if let (Some(a), Some(b)) = (a, b) {
+                if a != b {
+                    let net = world.borrow().net.clone();
+                    net.inner.lock().unwrap().cfg.slow_links.insert((a, b), extra_ms);
+                    world.borrow_mut().fire(f.kind_name());
+                    tokio::time::sleep(Duration::from_millis(dur)).await;
+                    net.inner.lock().unwrap().cfg.slow_links.remove(&(a, b));
+                }
+            }
+        }
+        Fault::SlowReturn { dur, node, extra_ms, .. } => {
+            let id = resolve(&world.borrow(), &node);
+            if let Some(id) = id {
+                let net = world.borrow().net.clone();
+                for o in all.iter().filter(|o| **o != id) {
+                    net.inner.lock().unwrap().cfg.slow_links.insert((*o, id), extra_ms);
+                }
+                world.borrow_mut().fire(f.kind_name());
+                tokio::time::sleep(Duration::from_millis(dur)).await;
+                for o in all.iter().filter(|o| **o != id) {
+                    net.inner.lock().unwrap().cfg.slow_links.remove(&(*o, id));
+                }
+            }
+        }
+        Fault::BreakStreams { a, b, .. } => {
+            let (x, y) = {
+                let w = world.borrow();
+                (resolve(&w, &a), resolve(&w, &b))
+            };
+            if let (Some(x), Some(y)) = (x, y) {
+                let n = world.borrow().net.break_streams(x, y);
+                if n > 0 {
+                    world.borrow_mut().fire(f.kind_name());
+                }
+            }
+        }
+        Fault::DiskStall { node, dur, .. } => {
+            let id = resolve(&world.borrow(), &node);
+            if let Some(id) = id {
+                let w = world.borrow();
+                if let Some(Some(n)) = w.nodes.get(&id) {
+                    n.disk.lock().unwrap().faults.stall_until_ms = crate::seams::vnow_ms() + dur;
+                }
+                drop(w);
+                world.borrow_mut().fire(f.kind_name());
+                tokio::time::sleep(Duration::from_millis(dur)).await;
+            }
+        }
+        Fault::ApplyStall { node, dur, .. } => {
+            let id = resolve(&world.borrow(), &node);
+            if let Some(id) = id {
+                let w = world.borrow();
+                if let Some(Some(n)) = w.nodes.get(&id) {
+                    n.sm_obs.lock().unwrap().stall_until_ms = crate::seams::vnow_ms() + dur;
+                }
+                drop(w);
+                world.borrow_mut().fire(f.kind_name());
+                tokio::time::sleep(Duration::from_millis(dur)).await;
+            }
+        }
+        Fault::DropRate { dur, per_mille, .. } => {
+            let net = world.borrow().net.clone();
+            let old = {
+                let mut g = net.inner.lock().unwrap();
+                let o = g.cfg.drop_per_mille;
+                g.cfg.drop_per_mille = per_mille;
+                o
+            };
+            world.borrow_mut().fire(f.kind_name());
+            tokio::time::sleep(Duration::from_millis(dur)).await;
+            net.inner.lock().unwrap().cfg.drop_per_mille = old;
+        }
+        Fault::Join { node, .. } => {
+            start_node(&world, node).await;
+            world.borrow_mut().fire(f.kind_name());
+        }
     }
-    let members: Vec<(u32, bool)> = vec![(1, false), (2, false), (3, false)];
-    let mut nodes: BTreeMap<u32, SimNode> = BTreeMap::new();
-    for (id, _) in &members {
-        let cfg = base_config(*id, &members, root).validate().expect("config validates");
-        nodes.insert(*id, SimNode::new(*id, seed, cfg, net.clone(), oracle.clone()));
+    world.borrow_mut().faults_active -= 1;
+}
+
+/// Periodic structural invariants over live handles: C04 (log matching, gap-free), C26.
+async fn checker(world: WorldRef) {
+    let mut prefix_ok: HashMap<u32, (u64, u64)> = HashMap::new(); // node -> (inc, matched committed prefix)
+    loop {
+        tokio::time::sleep(Duration::from_millis(25)).await;
+        crate::checks::structural_checks(&world, &mut prefix_ok);
     }
-    for n in nodes.values_mut() {
-        n.start().await;
-    }
-    let mut rng = Rng::new(seed);
-    let mut ok = 0u64;
-    let mut fail = 0u64;
-    for i in 0..200u64 {
-        tokio::time::sleep(Duration::from_millis(rng.range(5, 50))).await;
-        let target = *rng.pick(&[1u32, 2, 3]);
-        let Some(cur) = nodes.get(&target).and_then(|n| n.cur.as_ref()) else { continue };
-        let req = ClientWriteRequest {
-            client_id: 1,
-            command: Some(WriteOperation::Insert {
-                key: Bytes::from(format!("k{}", i % 3)),
-                value: Bytes::from(format!("c1-{i}")),
-                ttl_secs: None,
-            }),
+}
+
+async fn run(plan: Plan, root: &std::path::Path, trace: bool) -> Value {
+    let oracle: OracleRef = Oracle::new(trace);
+    oracle.lock().unwrap().learner_cfg_nodes = plan.learners.iter().copied().collect();
+    let k = plan.knobs.clone();
+    let net = Net::new(
+        plan.seed,
+        NetConfig {
+            latency_ms: k.net_latency,
+            drop_per_mille: k.drop_per_mille,
+            slow_links: HashMap::new(),
+            keepalive_ms: k.keepalive_ms,
+            datagram: false,
+            dup_per_mille: 0,
+        },
+        oracle.clone(),
+    );
+    let registry = Arc::new(Mutex::new(Registry::default()));
+    let ledger = Arc::new(Mutex::new(CommitLedger::default()));
+    install_hook(oracle.clone(), registry.clone(), ledger.clone());
+
+    let mut nodes: BTreeMap<u32, Option<SimNode>> = BTreeMap::new();
+    let voters_m: Vec<(u32, bool)> = plan.voters.iter().map(|v| (*v, false)).collect();
+    let mut config_errors = Vec::new();
+    for id in plan.voters.iter().chain(plan.learners.iter()) {
+        let mut members = voters_m.clone();
+        if plan.learners.contains(id) {
+            members.push((*id, true));
+        }
+        let cfg = match node_config(*id, &members, root, &k).validate() {
+            Ok(c) => c,
+            Err(e) => {
+                config_errors.push(format!("{e:?}"));
+                continue;
+            }
         };
-        let (tx, rx) = MaybeCloneOneshot::new();
-        if cur.cmd_tx.send(ClientCmd::Propose(req, tx)).await.is_err() {
-            continue;
-        }
-        match tokio::time::timeout(Duration::from_millis(500), rx).await {
-            Ok(Ok(Ok(r))) if r.error == ErrorCode::Success => ok += 1,
-            _ => fail += 1,
-        }
-    }
-    tokio::time::sleep(Duration::from_secs(3)).await;
-    let mut logs = serde_json::Map::new();
-    for (id, n) in &nodes {
-        if let Some(c) = &n.cur {
-            logs.insert(
-                id.to_string(),
-                json!({"last": c.raft_log.last_entry_id(), "first": c.raft_log.first_entry_id(),
-                       "durable": c.raft_log.durable_index(),
-                       "applied": n.sm_img.lock().unwrap().last_applied.0,
-                       "applies": n.sm_obs.lock().unwrap().applies.len()}),
+        // C12(e)/C34 side assertion on every accepted configuration
+        let rc = &cfg.raft.read_consistency;
+        if rc.lease_duration_ms >= cfg.raft.election.election_timeout_min {
+            oracle.lock().unwrap().violate(
+                "C12",
+                "accepted_config_lease_not_below_election_timeout",
+                json!({"lease": rc.lease_duration_ms, "election_min": cfg.raft.election.election_timeout_min}),
             );
         }
+        let n = SimNode::new(*id, plan.seed, cfg, net.clone(), oracle.clone());
+        n.disk.lock().unwrap().faults.latency_ms = k.disk_latency;
+        n.sm_obs.lock().unwrap().apply_latency_ms = k.apply_latency;
+        nodes.insert(*id, Some(n));
     }
+    if !config_errors.is_empty() {
+        return json!({"seed": plan.seed, "harness_error": format!("config rejected: {config_errors:?}"), "plan": plan});
+    }
+    let world: WorldRef = Rc::new(RefCell::new(World {
+        plan: plan.clone(),
+        nodes,
+        net: net.clone(),
+        oracle: oracle.clone(),
+        registry,
+        ledger: ledger.clone(),
+        root: root.to_path_buf(),
+        fired: BTreeMap::new(),
+        faults_active: 0,
+        in_quiet: false,
+    }));
+    for id in plan.voters.iter() {
+        start_node(&world, *id).await;
+    }
+    let hist: HistoryRef = Rc::new(RefCell::new(History::default()));
+    let chk = tokio::task::spawn_local(checker(world.clone()));
+    let mut fault_tasks = Vec::new();
+    for f in plan.faults.iter() {
+        fault_tasks.push(tokio::task::spawn_local(exec_fault(world.clone(), f.clone())));
+    }
+    let mut client_tasks = Vec::new();
+    for c in plan.clients.iter() {
+        client_tasks.push(tokio::task::spawn_local(run_client(world.clone(), hist.clone(), c.clone(), plan.horizon_ms)));
+    }
+    tokio::time::sleep(Duration::from_millis(plan.horizon_ms)).await;
+    // ── faults stop: wait for fault items in progress, heal, restart everything that is down ──
+    for t in fault_tasks {
+        let _ = tokio::time::timeout(Duration::from_secs(20), t).await;
+    }
+    for t in client_tasks {
+        let _ = tokio::time::timeout(Duration::from_secs(10), t).await;
+    }
+    {
+        net.unblock_all();
+        let mut g = net.inner.lock().unwrap();
+        g.cfg.slow_links.clear();
+        g.cfg.drop_per_mille = 0;
+    }
+    let all: Vec<u32> = world.borrow().nodes.keys().copied().collect();
+    let started: Vec<u32> = {
+        let w = world.borrow();
+        all.iter()
+            .filter(|id| w.plan.voters.contains(id) || w.fired.get("join").is_some() && w.nodes.get(id).is_some_and(|n| n.as_ref().is_some_and(|n| n.inc_counter > 0)))
+            .copied()
+            .collect()
+    };
+    for id in started.iter() {
+        if !world.borrow().up_nodes().contains(id) {
+            start_node(&world, *id).await;
+        }
+    }
+    for id in all.iter() {
+        let w = world.borrow();
+        if let Some(Some(n)) = w.nodes.get(id) {
+            n.disk.lock().unwrap().faults.stall_until_ms = 0;
+            n.sm_obs.lock().unwrap().stall_until_ms = 0;
+        }
+    }
+    world.borrow_mut().in_quiet = true;
+    let heal_ms = crate::seams::vnow_ms();
+    tokio::time::sleep(Duration::from_millis(plan.quiet_ms)).await;
+    let liveness = crate::checks::quiet_checks(&world, &hist).await;
+    chk.abort();
+    let mut prefix_ok = HashMap::new();
+    crate::checks::structural_checks(&world, &mut prefix_ok);
+    let fin = crate::checks::final_checks(&world, &hist);
+
+    // ── result ──
+    let w = world.borrow();
     let o = oracle.lock().unwrap();
     let stats = net.inner.lock().unwrap().stats.clone();
-    json!({"seed": seed, "ok": ok, "fail": fail, "vtime_ms": crate::seams::vnow_ms(), "nodes": logs,
-           "oracle": o.summary(), "net": format!("{stats:?}"), "draws": crate::seams::random_draws()})
+    let mut node_info = serde_json::Map::new();
+    let mut disk_tot = (0u64, 0u64, 0u64);
+    for (id, n) in w.nodes.iter() {
+        let Some(n) = n else { continue };
+        let d = n.disk.lock().unwrap();
+        disk_tot.0 += d.stats.persist_calls;
+        disk_tot.1 += d.stats.flush_calls;
+        disk_tot.2 += d.stats.fenced_calls;
+        let (last, first, durable) = n
+            .cur
+            .as_ref()
+            .map(|c| (c.raft_log.last_entry_id(), c.raft_log.first_entry_id(), c.raft_log.durable_index()))
+            .unwrap_or((0, 0, 0));
+        node_info.insert(
+            id.to_string(),
+            json!({"up": n.is_up(), "inc": n.inc_counter, "last": last, "first": first, "durable": durable,
+                   "applied": n.sm_img.lock().unwrap().last_applied.0,
+                   "applies": n.sm_obs.lock().unwrap().applies.len(),
+                   "snapshots": n.sm_obs.lock().unwrap().snapshots.len()}),
+        );
+    }
+    let h = hist.borrow();
+    let mut oc: BTreeMap<String, u64> = BTreeMap::new();
+    for op in h.ops.iter() {
+        let k = match &op.outcome {
+            crate::clients::Outcome::WriteOk(_) => "write_ok",
+            crate::clients::Outcome::ReadOk(_) => "read_ok",
+            crate::clients::Outcome::ScanOk { .. } => "scan_ok",
+            crate::clients::Outcome::Rejected(_) => "rejected",
+            crate::clients::Outcome::Indeterminate(_) => "indeterminate",
+            crate::clients::Outcome::Unresolved(_) => "unresolved",
+        };
+        *oc.entry(k.to_string()).or_insert(0) += 1;
+    }
+    let faults_fired: u64 = w.fired.values().sum();
+    let committed = ledger.lock().unwrap().by_index.len();
+    let nontrivial = faults_fired > 0 && committed > 1 && oc.get("write_ok").copied().unwrap_or(0) > 0;
+    let mut res = json!({
+        "seed": plan.seed,
+        "scenario": plan.scenario,
+        "vtime_ms": crate::seams::vnow_ms(),
+        "heal_ms": heal_ms,
+        "nodes": node_info,
+        "ops": h.ops.len(),
+        "outcomes": oc,
+        "faults_fired": w.fired,
+        "committed": committed,
+        "nontrivial": nontrivial,
+        "net": {"sent": stats.sent, "delivered": stats.delivered, "dropped_random": stats.dropped_random,
+                "dropped_partition": stats.dropped_partition, "refused_down": stats.refused_down,
+                "streams_opened": stats.streams_opened, "streams_broken": stats.streams_broken,
+                "stream_stalls": stats.stream_stalls, "snapshots_pushed": stats.snapshots_pushed,
+                "snapshots_push_failed": stats.snapshots_push_failed, "slow_link_msgs": stats.slow_link_msgs},
+        "disk": {"persist_calls": disk_tot.0, "flush_calls": disk_tot.1, "fenced_calls": disk_tot.2},
+        "oracle": o.summary(),
+        "liveness": liveness,
+        "final": fin,
+        "draws": crate::seams::random_draws(),
+        "event_seq": crate::oracle::current_event_seq(),
+        "plan_summary": {"voters": plan.voters.len(), "learners": plan.learners.len(), "faults": plan.faults.len(),
+                         "clients": plan.clients.len(), "horizon_ms": plan.horizon_ms, "quiet_ms": plan.quiet_ms},
+    });
+    if trace {
+        res["trace_log"] = json!(o.trace_log.clone().unwrap_or_default());
+        res["history"] = json!(h.ops);
+    }
+    if !o.violations.is_empty() {
+        res["plan"] = serde_json::to_value(&plan).unwrap();
+        if !trace {
+            res["history_tail"] = json!(h.ops.iter().rev().take(30).collect::<Vec<_>>());
+        }
+    }
+    let _ = payload_hash;
+    res
 }
